@@ -9,6 +9,7 @@ Section IncludesSpec.
   Context {path : Type}.
   Variable canon : path -> option path.
   Variable is_dir : path -> bool.
+  Variable is_file : path -> bool.
   Variable read_dir : path -> option (list path).
   Variable join : path -> path -> path.
   Variable parent : path -> path.
@@ -22,42 +23,55 @@ Section IncludesSpec.
   Definition canonical (p : path) : Prop := canon p = Some p.
 
 
-  (* what a named path stands for: a .circom file, or the files below a directory *)
-  Inductive expands : path -> path -> Prop :=
-  | expands_file p c :
-      is_dir p = false -> ext_circom p = true -> canon p = Some c -> expands p c
-  | expands_dir p names n c :
-      is_dir p = true -> read_dir p = Some names -> n ∈ names -> expands (join p n) c ->
-      expands p c.
+  (* what a path stands for.  [named = true]: the path is given on the command
+     line, and if it is not a directory it is an input file whatever its
+     suffix; [named = false]: the path is an entry of a directory, and counts
+     only with the .circom suffix.  A directory stands for what its entries
+     stand for. *)
+  Inductive expands : bool -> path -> path -> Prop :=
+  | expands_file named p c :
+      is_dir p = false -> named || ext_circom p = true -> canon p = Some c -> expands named p c
+  | expands_dir named p names n c :
+      is_dir p = true -> read_dir p = Some names -> n ∈ names -> expands false (join p n) c ->
+      expands named p c.
 
   (* a library offers the include [inc] as the file [c] *)
   Inductive lib_offers (inc : path) : library (path:=path) -> path -> Prop :=
   | offers_dir l c :
       lib_dir l = true -> starts_dot inc = false -> canon (join (lib_path l) inc) = Some c ->
+      is_file c = true ->
       lib_offers inc l c
   | offers_file l :
       lib_dir l = false -> has_sep inc = false -> file_name (lib_path l) = Some inc ->
       lib_offers inc l (lib_path l).
+
+  (* the file next to the including file: only a file can be included, a
+     directory of that name does not count *)
+  Definition relative (cur inc : path) : option path :=
+    match canon (join (parent cur) inc) with
+    | Some c => if is_file c then Some c else None
+    | None => None
+    end.
 
   (* the include [inc] of the file [cur]: relative to the directory of the
      including file first, then the first library, in the order given, that
      offers it *)
   Inductive resolves (cur : path) (libs : list library) (inc : path) : option path -> Prop :=
   | resolves_relative c :
-      canon (join (parent cur) inc) = Some c -> resolves cur libs inc (Some c)
+      relative cur inc = Some c -> resolves cur libs inc (Some c)
   | resolves_library l1 l l2 c :
-      canon (join (parent cur) inc) = None ->
+      relative cur inc = None ->
       libs = l1 ++ l :: l2 ->
       Forall (fun l' => forall c', ~ lib_offers inc l' c') l1 ->
       lib_offers inc l c ->
       resolves cur libs inc (Some c)
   | resolves_nowhere :
-      canon (join (parent cur) inc) = None ->
+      relative cur inc = None ->
       Forall (fun l' => forall c', ~ lib_offers inc l' c') libs ->
       resolves cur libs inc None.
 
   (* the canonical files the command line names *)
-  Definition named (paths : list path) (c : path) : Prop := exists p, p ∈ paths /\ expands p c.
+  Definition named (paths : list path) (c : path) : Prop := exists p, p ∈ paths /\ expands true p c.
 
 
   (* files reachable from the named ones through resolved includes *)
